@@ -92,6 +92,169 @@ let s_tags ts = s_list (s_list s_bytes) ts
 let s_opt f = function None -> "none" | Some x -> f x
 let s_n x = "n:" ^ dec_of_n x
 
+
+(* ---------- db engine ---------- *)
+let fnv (l : n list) : string =
+  let h = ref 0x811c9dc5 in
+  List.iter (fun x -> h := ((!h lxor (int_of_n x)) * 0x01000193) land 0xFFFFFFFF) l;
+  Printf.sprintf "%08x" !h
+let p_addr t : addr = let a_kind = p_n t in let a_author = p_b t in let a_d = p_b t in { a_kind; a_author; a_d }
+let s_dberr (r : 'a res) : string = match r with
+  | Ok _ -> "ok" | Err e -> "err:" ^ (match e with
+      | EDup -> "dup" | EDeleted -> "deleted" | EReplaced -> "replaced" | EInvalidDelete -> "invaliddelete"
+      | EScraper -> "scraper" | EWrongKind -> "wrongkind" | EEnd -> "end" | _ -> "other")
+  | Panic -> "panic" | OutOfFuel -> "fuel"
+let rec first_n k l = if k = 0 then [] else match l with [] -> [] | x :: r -> x :: first_n (k - 1) r
+
+type hist = { mutable st : db; mutable ast : astate; mutable offsets : n list; names : n list list }
+
+let db_op (h : hist) (t : toks) : string =
+  let op = next t in
+  match op with
+  | "store" ->
+      let e = p_event t in
+      let (s', r) = store_event h.st e in
+      h.st <- s';
+      (match r with
+       | Ok off -> h.offsets <- h.offsets @ [off];
+                   Printf.sprintf "ok %s h=%s" (dec_of_n off) (fnv (enc_event e))
+       | r -> s_dberr r)
+  | "remove" ->
+      let id = p_b t in
+      let (s', r) = remove_event h.st id in h.st <- s'; s_dberr r
+  | "vanish" ->
+      let pk = p_b t in
+      let (s', r) = vanish h.st pk in h.st <- s'; s_dberr r
+  | "query" ->
+      let f = p_filter t in
+      let screen = p_list (fun t -> let i = p_b t in let o = p_int t in (i, o)) t in
+      let allow = p_int t <> 0 in let lim = p_n t in let secs = p_n t in let now = p_n t in
+      let scr (e : aevent) = match List.assoc_opt e.e_id screen with
+        | Some 1 -> SMismatch | Some 2 -> SRedacted | _ -> SMatch in
+      (match find_events h.st f scr now allow lim secs with
+       | Ok (evs, red) ->
+           Printf.sprintf "ok [%s] red=%s"
+             (String.concat "," (List.map (fun (e : aevent) -> hex_of_bytes (first_n 4 e.e_id)) evs)) (s_bool red)
+       | r -> s_dberr r)
+  | "reopen" -> h.st <- reopen h.st; "ok"
+  | "rebuild" ->
+      (match rebuild h.st with
+       | Ok s' -> h.st <- s'; h.offsets <- [];
+                  Printf.sprintf "ok bak=%s" (s_bool (s'.bak <> None))
+       | r -> s_dberr r)
+  | "xput" ->
+      let name = p_b t in let k = p_b t in let v = p_b t in
+      if List.mem name h.names then (h.st <- db_extra_put h.st name k v; "ok") else "notable"
+  | "obs" ->
+      let ids = p_list p_b t in let addrs = p_list p_addr t in
+      let b = Buffer.create 256 in
+      Buffer.add_string b "ids=";
+      List.iteri (fun i id ->
+        if i > 0 then Buffer.add_char b ',';
+        Buffer.add_char b (if has_event h.st id then '1' else '0');
+        Buffer.add_char b (if event_is_deleted h.st id then '1' else '0');
+        Buffer.add_char b ':';
+        Buffer.add_string b (match get_event_by_id h.st id with
+          | Ok (Some e) -> fnv (enc_event e) | Ok None -> "-" | _ -> "E")) ids;
+      Buffer.add_string b " addrs=";
+      List.iteri (fun i (a : addr) ->
+        if i > 0 then Buffer.add_char b ',';
+        Buffer.add_string b (match naddr_is_deleted_asof h.st a with Some t -> dec_of_n t | None -> "-");
+        Buffer.add_char b ':';
+        let found r = (match r with Ok (Some e) -> fnv (enc_event e) | Ok None -> "-" | _ -> "E") in
+        Buffer.add_string b (
+          if is_replaceable a.a_kind then found (find_replaceable_event h.st a.a_author a.a_kind)
+          else if is_param_replaceable a.a_kind then found (find_param_replaceable_event h.st a)
+          else "x")) addrs;
+      Buffer.add_string b " stats=";
+      Buffer.add_string b (String.concat "," (List.map dec_of_n (stats h.st)));
+      Buffer.add_string b " offs=";
+      List.iteri (fun i off ->
+        if i > 0 then Buffer.add_char b ',';
+        Buffer.add_string b (match get_event_by_offset h.st off with Ok e -> fnv (enc_event e) | _ -> "E")) h.offsets;
+      Buffer.add_string b " extra=";
+      List.iter (fun name ->
+        match List.assoc_opt name h.st.committed.t_extra with
+        | Some rows ->
+            let rs = List.sort compare (List.map (fun (k, v) -> hex_of_bytes k ^ "=" ^ hex_of_bytes v) rows) in
+            Buffer.add_string b (Printf.sprintf "%s[%s]" (String.init (List.length name) (fun i -> Char.chr (int_of_n (List.nth name i)))) (String.concat ";" rs))
+        | None -> ()) h.names;
+      Buffer.contents b
+  | _ -> "RUNNER-ERROR unknown op " ^ op
+
+
+(* the abstract specification (ADb.v) run on the same operation *)
+let spec_op (h : hist) (t : toks) : string =
+  let op = next t in
+  match op with
+  | "store" ->
+      let e = p_event t in
+      let (a', r) = a_store h.ast e in h.ast <- a'; s_dberr r
+  | "remove" -> let id = p_b t in h.ast <- a_remove h.ast id; "ok"
+  | "vanish" -> let pk = p_b t in h.ast <- a_vanish h.ast pk; "ok"
+  | "query" ->
+      let f = p_filter t in
+      let screen = p_list (fun t -> let i = p_b t in let o = p_int t in (i, o)) t in
+      let allow = p_int t <> 0 in let lim = p_n t in let secs = p_n t in let now = p_n t in
+      let scr (e : aevent) = match List.assoc_opt e.e_id screen with
+        | Some 1 -> SMismatch | Some 2 -> SRedacted | _ -> SMatch in
+      let q = a_qualifying h.ast f scr in
+      Printf.sprintf "q [%s] redactable=%s limit=%s refusable=%s"
+        (String.concat "," (List.map (fun (e : aevent) -> dec_of_n e.e_created ^ ":" ^ hex_of_bytes (first_n 4 e.e_id)) q))
+        (s_bool (a_redactable h.ast f scr)) (dec_of_n f.f_limit)
+        (s_bool (is_scrape f && not (scrape_covered f now allow lim secs)))
+  | "reopen" -> "ok"
+  | "rebuild" -> "ok"
+  | "xput" -> let name = p_b t in let k = p_b t in let v = p_b t in
+      if List.mem name h.names then (h.ast <- a_extra_put h.ast name k v; "ok") else "notable"
+  | "obs" ->
+      let ids = p_list p_b t in let addrs = p_list p_addr t in
+      let b = Buffer.create 256 in
+      Buffer.add_string b "ids=";
+      List.iteri (fun i id ->
+        if i > 0 then Buffer.add_char b ',';
+        Buffer.add_char b (if has_id id h.ast.live then '1' else '0');
+        Buffer.add_char b (if mem_bytes id h.ast.del_ids then '1' else '0');
+        Buffer.add_char b ':';
+        Buffer.add_string b (match find_id id h.ast.live with Some e -> fnv (enc_event e) | None -> "-")) ids;
+      Buffer.add_string b " addrs=";
+      List.iteri (fun i (a : addr) ->
+        if i > 0 then Buffer.add_char b ',';
+        Buffer.add_string b (match del_time h.ast.del_addrs a with Some t -> dec_of_n t | None -> "-");
+        Buffer.add_char b ':';
+        let a0 = if is_replaceable a.a_kind then { a with a_d = [] } else a in
+        let holders = List.filter (at_addr a0) h.ast.live in
+        Buffer.add_string b (
+          if is_replaceable a.a_kind || is_param_replaceable a.a_kind then
+            (match holders with [] -> "-" | [e] -> fnv (enc_event e) | _ -> "MANY")
+          else "x")) addrs;
+      Buffer.add_string b (Printf.sprintf " live=%d delids=%d deladdrs=%d" (List.length h.ast.live)
+        (List.length h.ast.del_ids) (List.length h.ast.del_addrs));
+      Buffer.add_string b " extra=";
+      List.iter (fun name ->
+        match List.assoc_opt name h.ast.a_extra with
+        | Some rows ->
+            let rs = List.sort compare (List.map (fun (k, v) -> hex_of_bytes k ^ "=" ^ hex_of_bytes v) rows) in
+            Buffer.add_string b (Printf.sprintf "%s[%s]" (String.init (List.length name) (fun i -> Char.chr (int_of_n (List.nth name i)))) (String.concat ";" rs))
+        | None -> ()) h.names;
+      Buffer.contents b
+  | _ -> "RUNNER-ERROR unknown op " ^ op
+
+let cmd_dbhist (t : toks) : string =
+  let names = p_list p_b t in
+  let h = { st = db_init names; ast = a_init names; offsets = []; names } in
+  let segs = ref [] in
+  let ssegs = ref [] in
+  while t.i < Array.length t.a do
+    let sep = next t in
+    if sep <> ";" then failwith ("expected ; got " ^ sep);
+    let start = t.i in
+    segs := db_op h t :: !segs;
+    t.i <- start;
+    ssegs := spec_op h t :: !ssegs
+  done;
+  "dbhist " ^ String.concat " | " (List.rev !segs) ^ " ## " ^ String.concat " | " (List.rev !ssegs)
+
 (* ---------- commands ---------- *)
 let run_line (line : string) : string =
   let a = Array.of_list (List.filter (fun s -> s <> "") (String.split_on_char ' ' line)) in
@@ -122,6 +285,7 @@ let run_line (line : string) : string =
       let f = p_filter t in let outlen = p_int t in let fill = p_n t in
       let out = List.init outlen (fun _ -> fill) in
       Printf.sprintf "ctor_filter r=%s fits=%s" (s_res hex_of_bytes (filter_from_parts f out)) (s_bool (wf_afilterb f && fits_filterb f))
+  | "dbhist" -> cmd_dbhist t
   | "hll_add" ->
       let p_el t = let i = p_b t in let o = p_n t in (i, o) in
       let a = p_list p_el t in let b = p_list p_el t in
